@@ -22,6 +22,12 @@ pub enum ChOp {
     /// `bad` = use witness+1 instead (must fail iff native check fails)
     CheckPow(usize, bool),
     Clear,
+    /// several base elements through the trait's `observe_slice` (may be empty)
+    ObserveSlice(Vec<u64>),
+    /// several extension elements through `observe_ext_slice` (may be empty)
+    ObserveExtSlice(Vec<Vec<u64>>),
+    /// `sample_ext_vec(count)` (count may be 0)
+    SampleExtVec(usize),
 }
 
 #[derive(Clone, Debug, Serialize, Deserialize, PartialEq, Eq)]
@@ -61,6 +67,57 @@ pub fn gen_history(rng: &mut Rng, order: u64, d: usize, rate: usize, max_len: us
             91..=95 => ops.push(ChOp::CheckPow(rng.range(0, 6), allow_bad_pow && rng.chance(1, 4))),
             _ => ops.push(ChOp::Clear),
         }
+    }
+    History { ops }
+}
+
+/// Rewrite runs of single-element operations into the slice / vector entry points of the
+/// challenger trait (`observe_slice`, `observe_ext_slice`, `sample_ext_vec`), which must behave
+/// like the unrolled sequence; occasionally insert an empty slice / zero-count vector (no-ops).
+pub fn sliceify(rng: &mut Rng, h: &History) -> History {
+    let mut ops = Vec::new();
+    let mut i = 0;
+    while i < h.ops.len() {
+        if rng.chance(1, 24) {
+            ops.push(match rng.below(3) {
+                0 => ChOp::ObserveSlice(vec![]),
+                1 => ChOp::ObserveExtSlice(vec![]),
+                _ => ChOp::SampleExtVec(0),
+            });
+        }
+        let run_len = |pred: &dyn Fn(&ChOp) -> bool| h.ops[i..].iter().take_while(|o| pred(o)).count();
+        match &h.ops[i] {
+            ChOp::Observe(_) => {
+                let n = run_len(&|o| matches!(o, ChOp::Observe(_)));
+                if rng.chance(1, 2) {
+                    let take = rng.range(1, n);
+                    ops.push(ChOp::ObserveSlice(h.ops[i..i + take].iter().map(|o| if let ChOp::Observe(v) = o { *v } else { 0 }).collect()));
+                    i += take;
+                    continue;
+                }
+            }
+            ChOp::ObserveExt(_) => {
+                let n = run_len(&|o| matches!(o, ChOp::ObserveExt(_)));
+                if rng.chance(1, 2) {
+                    let take = rng.range(1, n);
+                    ops.push(ChOp::ObserveExtSlice(h.ops[i..i + take].iter().map(|o| if let ChOp::ObserveExt(v) = o { v.clone() } else { vec![] }).collect()));
+                    i += take;
+                    continue;
+                }
+            }
+            ChOp::SampleExt => {
+                let n = run_len(&|o| matches!(o, ChOp::SampleExt));
+                if rng.chance(1, 2) {
+                    let take = rng.range(1, n);
+                    ops.push(ChOp::SampleExtVec(take));
+                    i += take;
+                    continue;
+                }
+            }
+            _ => {}
+        }
+        ops.push(h.ops[i].clone());
+        i += 1;
     }
     History { ops }
 }
@@ -247,6 +304,50 @@ macro_rules! chal_universe {
                             obs(&mut inb, &mut outb, &mut perms);
                             smp(&mut inb, &mut outb, &mut perms);
                             states.push((inb, outb, 5));
+                        }
+                        ChOp::ObserveSlice(vs) => {
+                            let mut ts = Vec::new();
+                            for v in vs {
+                                let fv = F::from_u64(*v % F::ORDER_U64);
+                                native.observe(fv);
+                                ts.push(cb.public_input());
+                                publics.push(EF::from(fv));
+                                obs(&mut inb, &mut outb, &mut perms);
+                            }
+                            RecursiveChallenger::<F, EF>::observe_slice(&mut cc, cb, &ts);
+                            states.push((inb, outb, 8));
+                        }
+                        ChOp::ObserveExtSlice(cs) => {
+                            let mut ts = Vec::new();
+                            for c in cs {
+                                let ev = ef_from(c);
+                                native.observe_algebra_element(ev);
+                                ts.push(cb.public_input());
+                                publics.push(ev);
+                                for _ in 0..D {
+                                    obs(&mut inb, &mut outb, &mut perms);
+                                }
+                            }
+                            RecursiveChallenger::<F, EF>::observe_ext_slice(&mut cc, cb, &ts);
+                            states.push((inb, outb, 9));
+                        }
+                        ChOp::SampleExtVec(n) => {
+                            let ts = RecursiveChallenger::<F, EF>::sample_ext_vec(&mut cc, cb, *n);
+                            if ts.len() != *n {
+                                return Err(format!("sample_ext_vec({n}) returned {} targets", ts.len()));
+                            }
+                            for t in ts {
+                                let nv: EF = native.sample_algebra_element();
+                                let tag = format!("s{k}");
+                                k += 1;
+                                cb.tag(t, tag.clone()).map_err(|e| format!("{e:?}"))?;
+                                consume(cb, t);
+                                expected.push((tag, nv));
+                                for _ in 0..D {
+                                    smp(&mut inb, &mut outb, &mut perms);
+                                }
+                            }
+                            states.push((inb, outb, 10));
                         }
                         ChOp::Clear => {
                             native = DuplexChallenger::<F, Perm, WIDTH, RATE>::new(make_perm());
